@@ -7,3 +7,5 @@ import TlxVerif.Props.C08
 #print axioms TlxVerif.C08.partition_exists_for_every_rank
 #print axioms TlxVerif.C08.partition_rank_total
 #print axioms TlxVerif.C08.ends_are_partition_at_total
+#print axioms TlxVerif.C08.selection_characterised
+#print axioms TlxVerif.C08.partition_is_weak
